@@ -162,7 +162,7 @@ func canonicalElems(c lockgen.Config) ([]lockgen.SigElem, bool) {
 	if c.NSigs > 0 {
 		need = c.NSigs
 	}
-	avail := []int{lockgen.LockKey}
+	avail := []int{c.LockIdx}
 	if c.NSigs > 0 {
 		for i := 0; i < c.NCosign; i++ {
 			avail = append(avail, lockgen.Cosign0+i)
@@ -181,11 +181,11 @@ func canonicalElems(c lockgen.Config) ([]lockgen.SigElem, bool) {
 func propSwapMelt(t *rapid.T) {
 	w := world.New(t, world.Config{CaseSeed: rapid.Uint64().Draw(t, "case_seed"), SeedIdx: rapid.IntRange(0, 5).Draw(t, "mint_seed"), FeeMode: lnmodel.FeeZero})
 	defer w.Close()
-	condMode := rapid.SampledFrom([]string{"independent", "independent", "same", "same", "same_mixed_flags"}).Draw(t, "conditions")
+	condMode := rapid.SampledFrom([]string{"independent", "independent", "same", "same", "same_mixed_flags", "same_other_lock_key"}).Draw(t, "conditions")
 	sameCond := condMode == "same"
 	nLocked := rapid.IntRange(1, 3).Draw(t, "n_locked")
 	nPlain := rapid.IntRange(0, 3).Draw(t, "n_plain")
-	mixed := condMode == "same_mixed_flags"
+	mixed := condMode == "same_mixed_flags" || condMode == "same_other_lock_key"
 	if mixed {
 		// aim at the SIG_ALL uniformity rule itself: several locked inputs and mostly nothing else that could get the
 		// request refused (no plain inputs, canonical input witnesses, properly signed outputs)
@@ -200,6 +200,9 @@ func propSwapMelt(t *rapid.T) {
 		c := lockgen.GenConfig(t, "P2PK")
 		c.Malformed = ""
 		if i == 0 {
+			if condMode == "same_other_lock_key" {
+				c.Sigflag = "SIG_ALL"
+			}
 			base = c
 		} else if condMode != "independent" {
 			n := c.Nonce
@@ -208,6 +211,12 @@ func propSwapMelt(t *rapid.T) {
 			if condMode == "same_mixed_flags" {
 				// same keys and threshold, but not every input carries SIG_ALL
 				c.Sigflag = rapid.SampledFrom([]string{"absent", "SIG_INPUTS", "SIG_ALL"}).Draw(t, "mixed_sigflag")
+			}
+			if condMode == "same_other_lock_key" {
+				// same flags, threshold and co-signers, but locked to somebody else's key (witness by that key)
+				c.LockIdx = lockgen.Foreign0 + rapid.IntRange(0, 1).Draw(t, "other_lock_key")
+				c.DupLockInPubkeys = false
+				c.PubkeyOrder = nil
 			}
 		}
 		li := lockedInput{cfg: c, secret: c.Secret()}
@@ -281,6 +290,9 @@ func propSwapMelt(t *rapid.T) {
 				break
 			}
 		}
+		if condMode == "same_other_lock_key" {
+			rec.Class("e2e_sig_all_inputs_locked_to_different_keys")
+		}
 	}
 	rec.Class(fmt.Sprintf("e2e_target=%s_sig_all=%v", target, sigAllAny))
 	rec.NonTrivial(cls + fmt.Sprint(perm, locked[0].elems, locked[0].cfg.NSigs, locked[0].cfg.Locktime))
@@ -337,7 +349,13 @@ func propSwapMelt(t *rapid.T) {
 		for i := range msgs {
 			raw := mustHex(msgs[i].B_)
 			var sigs []string
-			sigs = append(sigs, lockgen.Sign(lockgen.LockKey, raw, 0))
+			signed := map[int]bool{}
+			for _, li := range locked {
+				if !signed[li.cfg.LockIdx] {
+					signed[li.cfg.LockIdx] = true
+					sigs = append(sigs, lockgen.Sign(li.cfg.LockIdx, raw, 0))
+				}
+			}
 			for k := 0; k < locked[0].cfg.NCosign; k++ {
 				sigs = append(sigs, lockgen.Sign(lockgen.Cosign0+k, raw, 0))
 			}
